@@ -474,8 +474,46 @@ Example ex_rejects :
   /\ validate_block ex_state 2 ex_fee true 50 1020000 (map p_tx (skipn 3 ex_pool)) ex_bal = Some cBalance.
 Proof. vm_compute. repeat split. Qed.
 
-Example ex_hist_ok : hist_ok (fun _ => 990000) (fun _ => true) VCode in_window init ex_hist.
+Definition ex_tsof (id : N) : Z :=
+  match id with
+  | 7%N => 990000 | 8%N => 970000 | 9%N => 1070001 | 10%N => 1070000 | _ => 1000000
+  end.
+
+Example ex_hist_ok : hist_ok ex_tsof (fun _ => true) VCode in_window init ex_hist.
 Proof. unfold ex_hist. solve_valid. Qed.
+
+(* the hypotheses of selected_not_on_chain are met by a selected transaction
+   (10, at the top of the window) while the chain is not empty *)
+Example ex_not_on_chain_hyps :
+  hist_ok ex_tsof (fun _ => true) VCode in_window init ex_hist /\
+  parent_finalized (run init ex_hist) 2 true /\
+  chain_ids (run init ex_hist) 2 = [7%N] /\
+  exists t, In t (candidate (s_mgr (run init ex_hist)) ex_fee true 50 1020000 0 3 ex_pool ex_bal) /\
+            x_id t = 10%N /\ x_ts t = ex_tsof (x_id t) /\ x_grp t = true.
+Proof.
+  split; [exact ex_hist_ok|]. split; [exact ex_parent|]. split; [vm_compute; reflexivity|].
+  eexists. split; [vm_compute; left; reflexivity|]. vm_compute. repeat split.
+Qed.
+
+(* the hypothesis of cumulative_balance with a non-empty prefix that charged
+   the same sender: 14 is selected after 10, both sent by account 1 *)
+Example ex_cumulative :
+  let sel := candidate (s_mgr ex_state) ex_fee true 50 1020000 0 3 ex_pool ex_bal in
+  let pre := firstn 2 sel in
+  exists t, sel = pre ++ t :: [] /\
+    x_id t = 14%N /\ debits ex_fee pre (x_from t) = 3000 /\
+    working ex_fee ex_bal pre (x_from t) = 2000 /\ charge ex_fee t = 1000.
+Proof.
+  cbv zeta. eexists. split; [vm_compute; reflexivity|]. vm_compute. repeat split.
+Qed.
+
+Example ex_nonneg_hyps :
+  (forall a, 0 <= ex_bal a) /\ Forall (fun e => 0 <= x_value (p_tx e)) ex_pool.
+Proof.
+  split.
+  - intro a. unfold ex_bal. destruct a as [|[p|p|]]; try lia; destruct p; lia.
+  - repeat constructor; cbn; lia.
+Qed.
 
 (* Without the hypothesis "the parent block is finalized" the statement fails:
    the pool consults only the manager (committed blocks), the validator also
